@@ -32,7 +32,13 @@ def cases(ctx):
     res = ctx.tlc("MC_DictShape", "run.cfg", workers=1,
                   extra_files={"run.cfg": "SPECIFICATION Spec\nINVARIANT InvTableSane\nCONSTRAINT Emit\nCHECK_DEADLOCK FALSE\n"},
                   label="MC_DictShape kinds x shapes x positions", tags=("SHAPE",), timeout=1500)
-    return [c for _t, c in res.printed]
+    out, seen = [], set()
+    for _t, c in res.printed:
+        key = (c["kind"], c["shape"], c["pos"])
+        if key not in seen:
+            seen.add(key)
+            out.append(c)
+    return out
 
 
 def document(case):
